@@ -16,6 +16,11 @@ CHECKS = {
          "Every opcode/operand form over the special-value alphabet squared, every DAG up to the node bound and spill-forcing families (libm/atan2/mod call-outs among live registers, up to 40 variables / 79 outputs) are compiled by the JIT and compared per exported node with the interpreter: point evaluator at every grid point, SIMD evaluator for every slice length 0..=35 with inputs placed against PROT_NONE guard pages on either side (an out-of-slice access faults and is attributed to the case by the crash journal).",
          "Trusted: per-node comparison logic (min/max-of-zeros exception applied only there), guard-page granularity; x86_64 only.",
          "DESIGN.md §4 C02"),
+ "C03": ("model_checking",
+         "bounded-exhaustive enumeration of ops/programs x boxes x points in the box on VM and JIT interval evaluators, vs. reference point semantics",
+         "For every opcode and operand form, every interval (pair) over a finite endpoint alphabet that contains each branch constant of the implementations (quadrant boundaries, +-1+-ulp, zero, denormals, 1e20, f32::MAX) is evaluated by the real VM and JIT interval evaluators and checked against the point value at endpoints, midpoints, endpoint neighbours and all alphabet values inside (all combinations for binary ops); every DAG up to the node bound is checked node by node on the intermediate intervals that actually arise (local obligation with clamped operand values); the Shape transform path is checked with 7 matrices. Tolerance 4 ulp.",
+         "Trusted: ref32 point semantics; exclusions exactly as the property states (NaN interval, NaN value, atan2(0,0)); crashes deferred to C11; x86_64 JIT only.",
+         "DESIGN.md §4 C03"),
  "C04": ("model_checking",
          "bounded-exhaustive enumeration of choice programs x boxes x trace sources x nested simplification histories on the real simplifier (VM budgets and JIT)",
          "For every choice program up to the bound and every box of a 100-box dyadic grid, traces from the interval evaluator (box) and the point evaluator (each sample point) of VM<255>, VM<3> and JIT are fed to simplify; every resulting child, and every child of a child over nested sub-boxes up to the nesting bound, is compared bit-for-bit with the original function on the traced domain under point, float-slice and grad-slice evaluators; simplification into other budgets (3, 4, 12) is included; simplify must never fail.",
